@@ -204,7 +204,7 @@ def run(pid, repo='/repo'):
         a = S('a\x1b[') + '1mbc'
         c = a.clear_formatting()
         return None if c.base_str == a.base_str and str(c) == a.base_str else '%r vs %r' % (c.base_str, a.base_str)
-    case('D34 AnsiStr.clear_formatting re-parses the text', {'C13': 'ansistr_op_eq'}, d34)
+    case('D34 AnsiStr.clear_formatting re-parses the text', {'C13': 'ansistr_op_eq', 'C07': 'clear_all'}, d34)
     # D35 (found by the near-miss directive stream + grammar oracle)
     def d35():
         bad = []
